@@ -255,7 +255,12 @@ Definition model_p (i : pinput) : pobs :=
   | f =>
       mk_pobs (run_result i)
               (tle (t_return (host_of i) (beh_of i)) (Fin (i_bound i)))
-              (match f with FExec => Some (cmd_arg (i_cmd i)) | _ => None end)
+              (match f with
+               | FExec =>
+                   (* cmd.Start refuses to start the process under a context that is already done *)
+                   match i_deadline i with Some 0%N => None | _ => Some (cmd_arg (i_cmd i)) end
+               | _ => None
+               end)
   end.
 
 (* ================================================================== *)
@@ -320,14 +325,19 @@ Definition success_allowed (i : pinput) : bool :=
      | SGood m => if is_metadata (i_cmd i) then meta_ok (i_name i) m else true
      end.
 
-(* which error a failing process must produce *)
+(* which error a failing process must produce: the plugin's own structured
+   error when the captured stderr holds one (at least one field), a typed
+   executable-file / malformed-plugin error otherwise *)
+Definition typed_error (r : result) : bool :=
+  match r with RExec | RMalformed _ => true | _ => false end.
+
 Definition error_kind_ok (i : pinput) (r : result) : bool :=
-  if (N.min (i_stderr_len i) cap =? 0)%N then match r with RExec => true | _ => false end
+  if (N.min (i_stderr_len i) cap =? 0)%N then typed_error r
   else match i_stderr i with
-       | ENotJson => match r with RMalformed _ => true | _ => false end
+       | ENotJson => typed_error r
        | EJson code msg md_nil =>
            if String.eqb code "" && String.eqb msg "" && md_nil
-           then match r with RMalformed _ => true | _ => false end
+           then typed_error r
            else match r with RReq c m => String.eqb c code && String.eqb m msg | _ => false end
        end.
 
